@@ -113,7 +113,8 @@ StructRec(S) ==
    gin |-> [g \in 1..FNG(S) |-> FInputs(S, g)], gout |-> [g \in 1..FNG(S) |-> FOutputs(S, g)],
    ginit |-> [g \in 1..FNG(S) |-> FInits(S, g)], gnodes |-> [g \in 1..FNG(S) |-> FNodes(S, g)],
    nin |-> [n \in 1..FNN(S) |-> FNodeIns(S, n)], nout |-> [n \in 1..FNN(S) |-> FNodeOuts(S, n)],
-   nsub |-> [n \in 1..FNN(S) |-> FSubs(S, n)], nv |-> FNV(S)]
+   nsub |-> [n \in 1..FNN(S) |-> FSubs(S, n)], nv |-> FNV(S),
+   raw |-> [top |-> S.top, nodeG |-> S.nodeG, hold |-> S.hold, vrole |-> S.vrole, vout |-> S.vout]]
 
 Emit ==
   EmitOn =>
